@@ -403,8 +403,30 @@ pub fn run_c17<K: KeyLike>(case: &Case) -> CaseReport {
             let _ = model.apply(op, i, &est, &mut rep.stats, 0);
         }
         let mut first: Option<(Out, View)> = None;
+        let mut first_logs: (Vec<(u16, u32)>, Vec<(bool, u32)>) = (vec![], vec![]);
+        let is_clone_op = matches!(op, Op::CloneSwap | Op::CloneDrop);
         for (j, s) in suts.iter_mut().enumerate() {
+            set_drop_log(true);
             let r = guarded!(rep, s.apply(op, i));
+            let drops = take_drop_log();
+            set_drop_log(false);
+            let cbl = s.cb.map(take_cb_log).unwrap_or_default();
+            // the order in which entries leave (callback order, and the order in which the
+            // departing keys/values are released) is part of the eviction choice; dropping a
+            // whole cache (clone ops) is not an eviction and is not compared
+            if j == 0 {
+                first_logs = (cbl, drops);
+            } else if cbl != first_logs.0 || (!is_clone_op && drops != first_logs.1) {
+                rep.violation = Some(vio(
+                    p,
+                    i,
+                    kind,
+                    op,
+                    "hasher-dependent-departure-order",
+                    format!("step {i} {op:?}: with hashers {:?} callbacks {:?} / releases {:?}; with hashers {:?} callbacks {:?} / releases {:?}", C17_HASHER_SETS[0], first_logs.0, first_logs.1, C17_HASHER_SETS[j], cbl, drops),
+                ));
+                return rep;
+            }
             let mut v = guarded!(rep, s.view());
             if kind == Kind::Wtl && j > 0 {
                 // the estimator dump contains nothing hasher dependent (same key hasher, same
